@@ -331,8 +331,21 @@ def finish(mod, prop, tier, seed, shard_results, inconclusive, t0, nshards):
         else:
             for r in recs:
                 new_violations.append(r)
+    if os.path.isdir(REPLAY_DIR):
+        for fn in os.listdir(REPLAY_DIR):
+            if fn.startswith(prop + "-"):
+                os.unlink(os.path.join(REPLAY_DIR, fn))
     replay_paths = []
+    # unclassified witnesses first, then round-robin over mechanisms
+    by_mech = collections.OrderedDict()
     for r in new_violations:
+        by_mech.setdefault(r.get("mechanism") or "", []).append(r)
+    ordered = list(by_mech.pop("", []))[:MAX_UNCLASSIFIED - min(len(by_mech), 10)]
+    while any(by_mech.values()):
+        for k in list(by_mech):
+            if by_mech[k]:
+                ordered.append(by_mech[k].pop(0))
+    for r in ordered:
         r = dict(r)
         r.setdefault("prop", prop)
         r.setdefault("tier", tier)
@@ -371,6 +384,7 @@ def finish(mod, prop, tier, seed, shard_results, inconclusive, t0, nshards):
             "excluded": {k[9:]: v for k, v in m["extra"].items() if k.startswith("excluded:")},
             "counters": {k: v for k, v in sorted(m["extra"].items()) if not k.startswith("excluded:")},
             "known_findings": dict(known_seen),
+            "violation_mechanisms": {(k or "(unclassified)"): v for k, v in m["violation_counts"].items()},
             "new_violations": int(n_new),
             "oracle_disagreements": len(m["oracle_disagreements"]),
             "inconclusive_reasons": inconclusive[:20],
